@@ -4,7 +4,7 @@
 # models/RaceInst.v; for loom.Queue / WaitClose / Wheel additionally the labelled small-step models
 # models/RaceQueue.v, RaceWaitClose.v, RaceWheel.v: race freedom of every run of the model that C01/C02,
 # C03/C04 and C09 step against the code; likewise models/RaceCache.v for the cachex step model CacheSteps.v that
-# C04's call-steps stream steps against the code). Tie to the code: (1) the access table regenerated from /repo's source
+# C04's call-steps stream steps against the code; models/RaceAtomics.v, RaceMutex.v, RaceTaskQueue.v for the machines of C17 and C09). Tie to the code: (1) the access table regenerated from /repo's source
 # by harness/cmd/accesses must equal RaceInst.ri_access_table; (2) a -race build of
 # harness/cmd/racestress hammers every shared component in real time on 1..16 Ps: a race
 # report is a failing schedule.
@@ -25,7 +25,12 @@ PROOFS = ["proofs/RaceProofs.v", "proofs/RaceHBProofs.v", "lib/Race.v", "lib/Rac
           "models/RaceCache.v", "proofs/RaceCacheMon.v", "proofs/RaceCacheStruct.v", "proofs/RaceCacheInv.v",
           "proofs/RaceCacheGen.v", "proofs/RaceCacheCases.v", "proofs/RaceCacheProofs.v",
           # ants task / taskx callback task: labelled result-publication protocols (any attempts, late handlers)
-          "models/RaceTasks.v", "proofs/RaceTasksProofs.v"]
+          "models/RaceTasks.v", "proofs/RaceTasksProofs.v",
+          # Flag / AddIf64 (Atomics.v, stepped by C17) and loom.Mutex (MutexWord.v mx_step) labelled
+          "models/RaceAtomics.v", "proofs/RaceAtomicsProofs.v",
+          "models/RaceMutex.v", "proofs/RaceMutexProofs.v",
+          # taskx.Queue (TaskQueue.v tq_gstep, the machine C09 replays) labelled: producers, consumer, closer, Get2 waiters
+          "models/RaceTaskQueue.v", "proofs/RaceTaskQueueStruct.v", "proofs/RaceTaskQueueProofs.v"]
 
 
 def coq_table():
@@ -142,6 +147,9 @@ def run(chk):
         "model step emits is a transcription of the source, cross-checked by the access-table rows of queue.go / wait_close.go / wheel.go / "
         "cache_impl.go / future.go and, for cachex, by c18_cache_labels_match_sites against the yield sites; the "
         "step-by-step tie of those models to the code is C01/C02, C03/C04, C09, and the C04 stream call-steps for cachex); "
+        "loom.Flag / AddIf64, loom.Mutex and taskx.Queue: every run of at_step / mx_step / tq_gstep labelled with memory events (models/Race{Atomics,Mutex,TaskQueue}.v; "
+        "tied to the code by C17 (at_event and TryLock sites at every step), C09 (the tq_gev trace the labelling is a function of) and the access-table rows of flag.go / atomic.go / mutex.go / "
+        "queue.go / task_callback.go; Lock / Unlock of mx_step are a re-model of package sync, its internal plain loads and semaphore unlabelled); "
         "ants Task and taskx callback task: labelled protocol machines (models/RaceTasks.v: any number of attempts, late handlers, Get2 callers; "
         "a protocol-level reading of task_callback_ants.go / task_callback.go, not a stepped model) and the detector; other fields only by the detector"]
     chk.assumptions = ["atomic operations, mutexes, WaitGroups and channels synchronise as the Go memory model says",
